@@ -1266,6 +1266,8 @@ class _NP:
         src = _np.asarray(_tolist(x), dtype=object) if not isinstance(x, _np.ndarray) else x
         flat = list(src.ravel())
         has_sym = any(isinstance(v, Sym) for v in flat)
+        if flat and any(isinstance(v, (str, bytes)) for v in flat):
+            return _np.array(_tolist(x), dtype=dtype)  # character data stays real numpy
         if dtype is None:
             if any(isinstance(v, (float, SymReal, Fraction, _np.floating)) for v in flat):
                 dtype = float
